@@ -288,7 +288,7 @@ class FindLocalPeaks(_PeakBase):
     # "integralP+": maps without negative/NaN cells and threshold >= 0 (the bound on the move)
     cases = ("none", "integral5", "integral5+", "integral4+")
     thorough_cases = ("none", "integral1", "integral1+", "integral3", "integral3+", "integral5", "integral5+", "integral7", "integral7+", "integral2+", "integral4+", "integral6+")
-    bounded = ("integral refinement is unrolled for the listed odd patch sizes (quick: 5; thorough: 1,3,5,7)",)
+    bounded = ("integral refinement is unrolled for the listed patch sizes (quick: 5 and 4; thorough: 1..7)",)
     not_decided = ("integral refinement on maps with a one-pixel side (outside the trusted kornia crop contract); refined coordinates on maps containing NaN cells",)
 
     no_crosscheck_nan = True
